@@ -127,9 +127,10 @@ def _wit_patterns(nin, tier):
     pats = [None, [[] for _ in range(nin)]]
     pats.append([[1]] + [[] for _ in range(nin - 1)])
     pats.append([[] for _ in range(nin - 1)] + [[0, 3]])
+    pats.append([[0]] + [[] for _ in range(nin - 1)])        # a non-empty stack made of empty items only
     if tier != 'quick':
         pats.append([[2, 0xfd] for _ in range(nin)])
-        pats.append([[0]] * nin)
+        pats.append([[0, 0]] * nin)
     return pats
 
 
